@@ -302,6 +302,54 @@ func delimPrefixHighByteAt(val string) int {
 	return -1
 }
 
+// delimPrefixHighByteFor is the terminator-relative form of the class: the index of a byte
+// >= 0x80 that directly follows a non-empty (proper or full) prefix of delim at the start
+// of a line of val, or -1.
+func delimPrefixHighByteFor(val, delim string) int {
+	if delim == "" {
+		return -1
+	}
+	for at := 0; at < len(val); {
+		end := strings.IndexByte(val[at:], '\n')
+		if end < 0 {
+			end = len(val)
+		} else {
+			end += at
+		}
+		line := val[at:end]
+		i := 0
+		for i < len(line) && i < len(delim) && line[i] == delim[i] {
+			i++
+		}
+		if i > 0 && i < len(line) && line[i] >= 0x80 {
+			return at + i
+		}
+		at = end + 1
+	}
+	return -1
+}
+
+// guardingDelimiters reads from the script the here-document terminators that guard the
+// value of each configured variable: a `NAME=...<<['"]WORD['"]` line of a configured NAME
+// whose here-document body begins with the configured value.
+func guardingDelimiters(script string, model map[string]string) map[string][]string {
+	out := map[string][]string{}
+	if !strings.Contains(script, "<<") {
+		return out
+	}
+	for _, t := range extractTokens(script, nil) {
+		if t.kind != "heredoc" || t.owner == "" || t.bodyAt < 0 {
+			continue
+		}
+		val, ok := model[t.owner]
+		if !ok || !strings.HasPrefix(script[t.bodyAt:], val) {
+			continue
+		}
+		out[t.owner] = append(out[t.owner], t.text)
+	}
+	return out
+}
+
 // avoidDelimPrefixHighByte rewrites val out of the excluded class (the offending byte
 // loses its top bit) and reports how many bytes were changed.
 func avoidDelimPrefixHighByte(val string) (string, int) {
@@ -650,6 +698,24 @@ func (r *runner) judge(builder string, script []byte) hx.Verdict {
 		}
 	}
 	sort.Strings(names)
+	// The open finding C18-dash-delimiter-prefix-highbyte is defined by its cause: a value
+	// line that starts with a non-empty prefix of the here-document terminator actually
+	// guarding THAT variable, directly followed by a byte >= 0x80 (dash drops the byte).
+	// While the finding is open such a variable is not judged for verbatim/exported; every
+	// other clause and every other variable is judged as usual.
+	skipValue := map[string]bool{}
+	for k, delims := range guardingDelimiters(string(script), model) {
+		for _, d := range delims {
+			if delimPrefixHighByteFor(model[k], d) >= 0 {
+				lab["value-own-terminator-prefix-then-high-byte"] = true
+				if hx.Excluded(ClassDelimPrefixHighByte) && !skipValue[k] {
+					skipValue[k] = true
+					hx.CountExcluded(ClassDelimPrefixHighByte)
+					lab["known-finding-class-not-judged"] = true
+				}
+			}
+		}
+	}
 	switch {
 	case len(names) >= 20:
 		lab["vars>=20"] = true
@@ -724,8 +790,12 @@ func (r *runner) judge(builder string, script []byte) hx.Verdict {
 		return fail(final, "verbatim", "%s sandbox: the shell stopped before all %d variables were dumped (%s)%s", builder, len(names), exitText(runErr), diag())
 	}
 	for i, k := range names {
-		want := strings.TrimRight(model[k], "\n")
-		if recs[i] != want {
+		if skipValue[k] {
+			continue
+		}
+		// "up to trailing newlines": stripping and preserving them are both allowed
+		want, got := strings.TrimRight(model[k], "\n"), strings.TrimRight(recs[i], "\n")
+		if got != want {
 			return fail(final, "verbatim", "%s sandbox: variable %s is %s in the shell, configured %s%s", builder, k, q(recs[i]), q(model[k]), diag())
 		}
 	}
@@ -753,7 +823,13 @@ func (r *runner) judge(builder string, script []byte) hx.Verdict {
 		expect[k] = strings.TrimRight(model[k], "\n")
 	}
 	for k, want := range expect {
+		if skipValue[k] {
+			continue
+		}
 		got, ok := seen[k]
+		if _, mine := model[k]; mine {
+			got = strings.TrimRight(got, "\n") // equality up to trailing newlines, both sides
+		}
 		if !ok {
 			clause := "no-other-variable"
 			if _, mine := model[k]; mine {
